@@ -10,11 +10,11 @@ CONFIG = {
     ],
     "modelled": ["cache.AddToUHash", "cache.RemoveFromUHash", "cache.SetUserID", "cache.SearchUserRaw", "cache.DoSearchUserRaw",
                  "cache.GetUserID", "cache.LoadUHash", "cache.fillUHash", "cache.InitFillUHash", "cache.userecRawAddToUHash",
-                 "cache.checkHash", "cache.SHM.Reset", "lookup histories across two processes (op prefix peer)", "cache.NewSHM / shm.CreateShm / shm.OpenShm (isCreate, isNew, header initialisation, Version/Size handshake)", "main_init start sequence of a second process (NewSHM + LoadUHash; op restart)",
+                 "cache.checkHash", "cache.SHM.Reset", "lookup histories across two processes (op prefix peer)", "cache.NewSHM / shm.CreateShm / shm.OpenShm (isCreate, isNew, header initialisation, Version/Size handshake)", "ptt.SetupNewUser at the index level (checks, free-slot search, SetUserID, failing .PASSWDS write; op register)", "main_init start sequence of a second process (NewSHM + LoadUHash; op restart)",
                  "cmsys.StringHashWithHashBits/fnv1a32StrCase", "types.Cstrcmp", "types.Cstrcasecmp", "ptttype.UserID_t.IsValid"],
     "assumptions": [
         "histories inside the quantifier: SetUserID on any slot; RemoveFromUHash followed (before any reload) by AddToUHash/SetUserID of that slot; AddToUHash only on a slot that is on no chain; cold load from a zeroed segment with at most MAX_USERS records; on-the-fly reload (by the owner or by a freshly started creator/opener process) from a file whose ids equal the live ids as C strings, possibly shorter, torn or missing; detached slots covered by the file are linked again (PRE_ALLOCATED_USERS >= MAX_USERS: no record is skipped)",
-        "one writer at a time (the Go code takes no lock around the index; concurrent writers are outside this property)",
+        "ptt.tryCleanUser (sweep of expired accounts when no slot is free) is switched off in the harness by a fresh .fresh file; SetUMoney is outside this property", "one writer at a time (the Go code takes no lock around the index; concurrent writers are outside this property)",
         "the Version/Size handshake of a freshly attaching process is exercised in the thorough tier; a long-lived peer process on the same segment (lookups and changes, `peer <op>`) in both tiers; the model has one state: the segment",
         "a lookup depends on the segment only: the oracle never calls the functions under test outside recorded ops, and a slot detached by RemoveFromUHash counts as absent from the index although its bytes stay in Userid",
     ],
